@@ -59,6 +59,30 @@ SPECIAL = [
 ]
 
 
+# families of programs that use the same names in different roles: whatever one compilation leaves behind in the process
+# (registries, class attributes, caches keyed by a name) meets the same key again in the next one
+FAMILIES = [
+    # labels and line numbers: with and without DATA, before and after the last DATA statement, RESTORE targets
+    ["zl: PRINT 1\n10 PRINT 2\nGOTO 20\n20 END\n",
+     "zl: DATA 1, 2\n10 DATA 3\nREAD a, b, c\nPRINT a; b; c\nRESTORE 10\nREAD d\nPRINT d\n20 RESTORE zl\nREAD e\nPRINT e\n",
+     "DATA 5, 6\nzl: PRINT 1\nON ERROR GOTO 20\nRESTORE zl\nREAD a\nPRINT a\nEND\n20 PRINT \"out of data\"\n",
+     "10 PRINT 0\nDATA 7\n20 REM\nON ERROR GOTO zl\nRESTORE 20\nREAD a\nPRINT a\nEND\nzl: PRINT \"out of data\"\n",
+     "READ x\nPRINT x\nRESTORE zl\nREAD y\nPRINT y\n10 DATA 8\nzl: 20 DATA 9\n",
+     "GOSUB zl\nEND\nzl: RESTORE\nREAD q\nPRINT q\nRETURN\nDATA 4\n"],
+    # one name as a variable of different types, a SUB, a FUNCTION, a CONST, a TYPE, an array, a label
+    ["DIM x AS INTEGER\nx = 3.7\nPRINT x\nfoo\nSUB foo\nPRINT \"foo1\"\nEND SUB\n",
+     "DIM x AS STRING\nx = \"s\"\nPRINT x\nfoo 2\nSUB foo (n)\nPRINT n\nEND SUB\n",
+     "TYPE t\na AS LONG\nEND TYPE\nDIM x AS t\nx.a = 5\nPRINT x.a\nCONST foo = 3\nPRINT foo\n",
+     "TYPE t\na AS STRING\nb AS INTEGER\nEND TYPE\nDIM x(2) AS t\nx(1).a = \"q\"\nPRINT x(1).a; x(2).b; foo\nFUNCTION foo\nfoo = 1\nEND FUNCTION\n",
+     "DEFSTR X\nx = \"d\"\nPRINT x\nfoo: PRINT 1\n",
+     "DIM SHARED x(3) AS DOUBLE\nx(2) = 1.5\nfoo\nSUB foo STATIC\nt = t + 1\nPRINT x(2); t\nEND SUB\n",
+     "x = 1\nfoo\nfoo\nSUB foo STATIC\nFOR x = 1 TO 2\nNEXT\nDIM t(x)\nPRINT x; UBOUND(t)\nEND SUB\n"],
+    # the same statements with and without the features that switch on per-process machinery (handlers, DATA, DEFtype)
+    ["ON ERROR GOTO h\nx% = 1 \\ z%\nPRINT \"a\"\nEND\nh: RESUME NEXT\n", "x% = 1\nPRINT \"a\"\nEND\nh: PRINT \"h\"\n",
+     "ON ERROR RESUME NEXT\nx% = 1 \\ z%\nPRINT \"a\"\n", "DEFINT A-Z\nx = 1\nPRINT \"a\"; x / 2\n", "x = 1\nPRINT \"a\"; x / 2\n"],
+]
+
+
 def digest(b):
     return hashlib.sha256(b if isinstance(b, bytes) else b.encode('utf-8', 'surrogatepass')).hexdigest()[:20]
 
@@ -225,6 +249,9 @@ def gen_cases(tier, seed):
         if pl['place'] in ('sub', 'function'):
             pl['steps'] = [s_ for s_ in pl['steps'] if s_['k'] != 'gosub']
         special.append({'src': 'text', 'text': c10.build(pl, random.Random(seed * 7919 + i + 1))[0], 'seed': i, 'scriptv': {}})
+    for fi, fam in enumerate(FAMILIES):
+        out.append({'batch': [{'src': 'text', 'text': t, 'seed': i, 'scriptv': {}} for i, t in enumerate(fam)], 'configs': allc,
+                    'hseed': seed * 41 + fi})
     SB = 4 if tier == 'quick' else 8
     for i in range(0, len(special), SB):
         out.append({'batch': special[i:i + SB], 'configs': allc, 'hseed': seed * 37 + i})
